@@ -122,7 +122,7 @@ def wilsonOp (args : List String) : Option OpEval := do
         | _ => ["malformed"]
       { model := joinBar [w, w, s, wald, sig], prop := cs } }
 
-/-- `frontends p conf t n xs… => ci_true | ci_if | from_iter.ci | pop succ merged.ci` -/
+/-- `frontends p conf t n xs… => ci_true | ci_if | from_iter.ci | pop succ merged.ci | … | pop succ ci_if (quota predicate)` -/
 def frontendsOp (args : List String) : Option OpEval := do
   let (conf, r) ← pConf args
   let (t, r) ← pElem (α := Int) r
@@ -146,15 +146,22 @@ def frontendsOp (args : List String) : Option OpEval := do
       let z := crit (.z conf.quantile)
       let nk : List Tok := [.s (toString n), .s (toString k)]
       let o7 := nk ++ nk ++ nk ++ nk ++ o1
+      -- a predicate with memory (the first q calls succeed): n elements, min q n successes
+      let q := (t + 1).toNat
+      let k8 := min q n
+      let bs8 := List.replicate k8 true ++ List.replicate (n - k8) false
+      let o8 := [Tok.s (toString n), .s (toString k8)] ++ tokOutcome tokUnitInterval (Proportion.ciTrue crit conf bs8)
       let cs := match impl with
-        | [a, b, c, d, e, f, g] =>
+        | [a, b, c, d, e, f, g, h] =>
+          (if h.take 2 == [toString n, toString k8] then oracleWilson conf n k8 z (h.drop 2)
+           else ["predicate-with-memory:-elements-not-counted-once-each"]) ++
           oracleWilson conf n k z a ++
           (if a == b && a == c && d == [toString n, toString k] ++ a then [] else ["front-ends-disagree"]) ++
           (if e == a && f == a then [] else ["container-with-gaps-differs"]) ++
           (if g == [toString n, toString k, toString n, toString k, toString n, toString k, toString n, toString k] ++ a then []
            else ["counts-from-an-iterator-with-an-inexact-size-hint-differ"])
         | _ => ["malformed"]
-      { model := joinBar [o1, o2, o3, o4, o1, o2, o7], prop := cs } }
+      { model := joinBar [o1, o2, o3, o4, o1, o2, o7, o8], prop := cs } }
 
 /-- bits of a `0`/`1` string (`-` is the empty sequence) -/
 def parseBits? (t : String) : Option (List Bool) :=
